@@ -419,6 +419,57 @@ def chanclose(rng, i):
     return {"kind": "chanclose", "cfg": {}, "steps": steps}
 
 
+# --------------------------------------------------------------------------- C05
+def rich_session(variant=0):
+    """A scripted session touching every part of the client: two channels, declare, consume,
+    confirm mode + listener, multi-frame deliveries, get with content, publishes, a call in
+    flight with its reply withheld, cancel, channel close, connection close."""
+    s = []
+    s += [{"do": "open", "as": "A", "req": 1}, {"do": "open", "as": "B", "req": 2}]
+    s += [op("A", "declare", q="qa"), {"do": "consume", "h": "A", "as": "c1"}]
+    s += [op("B", "select"), {"do": "listen", "h": "B", "what": "confirms", "as": "LB"}]
+    s += [srv(deliver(1, "c1", 1, 300, [100, 200]))]
+    s += [op("B", "publish", len=50, pid=1), srv({"k": "ack", "ch": 2, "dtag": 1, "multiple": False})]
+    s += [{"do": "getscript", "ch": 2, "mid": 2, "len": 20, "chunks": [20]}, op("B", "get", q="qb")]
+    s += [{"do": "hold", "ch": 1}, dict(op("A", "qos"), **{"async": True})]
+    s += [srv(deliver(1, "c1", 3, 10, [10]))]
+    if variant == 1:
+        s += [op("B", "publish", len=5000, pid=2), op("B", "declare_nowait", q="x")]
+    s += [{"do": "sync"}, {"do": "unhold", "ch": 1}, {"do": "release", "ch": 1}, {"do": "wait", "who": "A"}]
+    s += [{"do": "drain", "c": "c1"}, {"do": "cancel", "h": "A", "c": "c1"}]
+    s += [op("B", "purge", q="qb"), {"do": "close", "h": "A"}]
+    s += [op("B", "declare", q="last"), {"do": "drain", "l": "LB"}, {"do": "closeconn"}]
+    return s
+
+
+def crash_scenarios(baseline_len, baseline_writes, hs_len, tier, rng):
+    """fault positions: every byte offset of the server->client stream (EOF and reset), every
+    client write, garbage / EOF / reset at every step boundary"""
+    res = []
+    steps0 = rich_session(0)
+    offsets = list(range(hs_len, baseline_len + 1))
+    if tier == "quick":
+        # all offsets at stride 3 plus a seeded sample of the rest
+        base = set(offsets[::3])
+        rest = [o for o in offsets if o not in base]
+        offsets = sorted(base | set(rng.sample(rest, min(len(rest), 150))))
+    for o in offsets:
+        for kind in (["eof", "reset"] if tier == "thorough" else [rng.choice(["eof", "reset"])]):
+            res.append({"kind": "crash-offset", "fault": kind, "at": o,
+                        "cfg": {"log_io": True, "fault_at": o, "fault_kind": kind},
+                        "steps": rich_session(o % 2)})
+    for k in range(1, baseline_writes + 2):
+        res.append({"kind": "crash-write", "fault": "werr", "at": k,
+                    "cfg": {"log_io": True, "fail_write_at": k}, "steps": rich_session(k % 2)})
+    for i in range(2, len(steps0)):
+        for kind in ["garbage", "eof", "reset", "werr"]:
+            if tier == "quick" and kind in ("eof", "reset") and i % 2:
+                continue
+            st = list(steps0[:i]) + [{"do": "fault", "kind": kind}] + list(steps0[i:])
+            res.append({"kind": "crash-step", "fault": kind, "at": i, "cfg": {"log_io": True}, "steps": st})
+    return res
+
+
 # --------------------------------------------------------------------------- C20
 import itertools
 
